@@ -207,3 +207,100 @@ func c15Run(legacy bool) {
 
 func H_C15_streamable() { c15Run(false) }
 func H_C15_legacy_sse() { c15Run(true) }
+
+// H_C15_overlap: two requests from different sessions overlap (the second is served completely while
+// the first is inside the outermost middleware's before-phase); each passes every layer exactly once and
+// its method handler sees its own session and context.
+func H_C15_overlap() {
+	vRandConcrete(true)
+	n := vChoice("n", 4) + 1
+	type obs struct {
+		layer string
+		tok   interface{}
+		sess  string
+	}
+	var seen []obs
+	var nested func()
+	depth := 0
+	var mws []Middleware
+	for i := 0; i < n; i++ {
+		name := []string{"m1", "m2", "m3", "m4"}[i]
+		first := i == 0
+		mws = append(mws, func(next HandlerFunc) HandlerFunc {
+			return func(ctx context.Context, req *JSONRPCRequest) (JSONRPCMessage, error) {
+				sid := ""
+				if s, ok := GetSessionFromContext(ctx); ok && s != nil {
+					sid = s.GetID()
+				}
+				seen = append(seen, obs{name, ctx.Value(c15Key{}), sid})
+				if first {
+					depth++
+					if depth == 1 && nested != nil {
+						nested()
+					}
+				}
+				return next(ctx, req)
+			}
+		})
+	}
+	ctxFunc := func(ctx context.Context, r *http.Request) context.Context {
+		return context.WithValue(ctx, c15Key{}, r.Header.Get("X-Token"))
+	}
+	opts := []ServerOption{WithPostSSEEnabled(false), WithHTTPContextFunc(ctxFunc)}
+	if vBool("grouped") {
+		opts = append(opts, WithMiddleware(mws...))
+	} else {
+		for _, m := range mws {
+			opts = append(opts, WithMiddleware(m))
+		}
+	}
+	srv := NewServer("srv", "1.0", opts...)
+	srv.RegisterTool(NewTool("t"), func(ctx context.Context, r *CallToolRequest) (*CallToolResult, error) {
+		sid := ""
+		if s := ClientSessionFromContext(ctx); s != nil {
+			sid = s.GetID()
+		}
+		seen = append(seen, obs{"H", ctx.Value(c15Key{}), sid})
+		return NewTextResult("ok"), nil
+	})
+	mk := func() string {
+		rec := newVerifRecorder()
+		srv.httpHandler.ServeHTTP(rec, verifRequest("POST", "/mcp",
+			[]byte(`{"jsonrpc":"2.0","id":0,"method":"initialize","params":{"protocolVersion":"2025-03-26"}}`), "Accept", "application/json", "X-Token", "init"))
+		return rec.header.Get("Mcp-Session-Id")
+	}
+	sa, sb := mk(), mk()
+	vAssume(sa != "" && sb != "" && sa != sb)
+	seen = nil
+	depth = 0
+	call := []byte(`{"jsonrpc":"2.0","id":1,"method":"tools/call","params":{"name":"t","arguments":{}}}`)
+	recB := newVerifRecorder()
+	nested = func() {
+		srv.httpHandler.ServeHTTP(recB, verifRequest("POST", "/mcp", call, "Accept", "application/json", "X-Token", "tokB", "Mcp-Session-Id", sb))
+	}
+	recA := newVerifRecorder()
+	srv.httpHandler.ServeHTTP(recA, verifRequest("POST", "/mcp", call, "Accept", "application/json", "X-Token", "tokA", "Mcp-Session-Id", sa))
+	vAssert("both-answered", vAnd(recA.code() == 200, recB.code() == 200))
+	// expected: A:m1, then all of B (m1..mn, H), then A:m2..mn, H
+	vAssert("every-layer-once-per-request", len(seen) == 2*(n+1))
+	if len(seen) == 2*(n+1) {
+		names := []string{"m1", "m2", "m3", "m4"}
+		k := 0
+		expect := func(layer, tok, sid string) {
+			vAssert("layer-order", seen[k].layer == layer)
+			vAssert("layer-own-context", seen[k].tok == tok)
+			vAssert("layer-own-session", seen[k].sess == sid)
+			k++
+		}
+		expect("m1", "tokA", sa)
+		for i := 0; i < n; i++ {
+			expect(names[i], "tokB", sb)
+		}
+		expect("H", "tokB", sb)
+		for i := 1; i < n; i++ {
+			expect(names[i], "tokA", sa)
+		}
+		expect("H", "tokA", sa)
+	}
+	vReach("end")
+}
